@@ -55,7 +55,8 @@ type ser struct {
 
 func mkSeries() []ser {
 	var out []ser
-	forms := []string{"cpu,host=a,region=x", "cpu,region=x,host=a", "cpu,host=b", "mem,host=a", "cpu", "disk,a=1,b=2,c=3", "disk,c=3,a=1,b=2", "net,h=\\,x", "m9,t=9"}
+	forms := []string{"cpu,host=a,region=x", "cpu,region=x,host=a", "cpu,host=b", "mem,host=a", "cpu", "disk,a=1,b=2,c=3", "disk,c=3,a=1,b=2", "net,h=\\,x", "m9,t=9",
+		"sys,host=a,host2=b", "sys,host2=b,host=a", "sys,dc=x,dc-zone=y,dc.rack=z", "sys,dc.rack=z,dc-zone=y,dc=x"}
 	for _, f := range forms {
 		pts, err := models.ParsePointsString(f + " v=1 1")
 		if err != nil || len(pts) != 1 {
@@ -76,6 +77,8 @@ func genCase(r *fw.Rand, tier string) fw.Case {
 		ops = append(ops, fmt.Sprintf("createdatanode h%d t%d", i, i))
 	}
 	ops = append(ops, "createdb db0")
+	p := sameSeries[r.Intn(len(sameSeries))]
+	ops = append(ops, fmt.Sprintf("samekey %d %d", p[0], p[1]))
 	sgds := []int64{0, hourNs, dayNs, weekNs, 36 * hourNs}
 	ops = append(ops, fmt.Sprintf("createrp db0 rp0 %d 0 %d 0", 1+r.Intn(3), sgds[r.Intn(len(sgds))]))
 	ops = append(ops, fmt.Sprintf("createrp db0 rp1 %d %d %d 0", 1+r.Intn(3), []int64{48 * hourNs, 30 * dayNs, 200 * dayNs}[r.Intn(3)], sgds[r.Intn(len(sgds))]))
@@ -313,8 +316,25 @@ func Dropped(m *metah.M, op string) (ts []int64, dropped []bool) {
 // SeriesHash is the hash of the i-th series the batches are built from.
 func SeriesHash(i int) uint64 { return series[i%len(series)].hash }
 
+// sameSeries: pairs of forms (indices into the series list) that spell one series
+var sameSeries = [][2]int{{0, 1}, {5, 6}, {9, 10}, {11, 12}}
+
 func stepOp(m *metah.M, op string) string {
 	f := strings.Fields(op)
+	if f[0] == "samekey" {
+		// the two spellings are parsed now, by the code under test: same key, same hash
+		i, _ := strconv.Atoi(f[1])
+		j, _ := strconv.Atoi(f[2])
+		a, e1 := models.ParsePointsString(series[i].key + " v=1 1")
+		b, e2 := models.ParsePointsString(series[j].key + " v=1 1")
+		if e1 != nil || e2 != nil || len(a) != 1 || len(b) != 1 {
+			return "err"
+		}
+		if string(a[0].Key()) != string(b[0].Key()) || a[0].HashID() != b[0].HashID() {
+			return fmt.Sprintf("DIFFERENT-KEYS %s / %s", a[0].Key(), b[0].Key())
+		}
+		return "ok"
+	}
 	if f[0] == "map" {
 		ms, err := doMap(m, metah.Nm(f[2]), metah.Nm(f[3]), parsePts(f[4]))
 		if err != nil {
@@ -340,8 +360,14 @@ func (Prop) RunImpl(c fw.Case) []string {
 // Oracle: judged from the real metadata after each batch.
 func (Prop) Oracle(c fw.Case, implOut []string) fw.Verdict {
 	m := metah.New(true)
-	for _, op := range c.Ops {
+	for k, op := range c.Ops {
 		f := strings.Fields(op)
+		if f[0] == "samekey" {
+			if k < len(implOut) && implOut[k] != "ok" {
+				return fw.Verdict{OK: false, Why: op + " => " + implOut[k] + ": one series, written with its tags in another order, gets another key (and so another shard)", Signature: "tag order changes the series key"}
+			}
+			continue
+		}
 		if f[0] != "map" {
 			m.Step(op)
 			continue
